@@ -22,7 +22,9 @@ Rec == { [attrs |-> IntV(0), ts |-> t, offset |-> o, key |-> ky, value |-> v, he
            h \in {<<>>, << <<BlobV(<<104>>), NullV>> >>} }
 Params == { [producer_id |-> IntV(-1), producer_epoch |-> pe, ple |-> IntV(0), base_seq |-> IntV(-1),
              attributes |-> IntV(0)] : pe \in {IntV(-1), IntV(7)} }
-RecSeqs == { <<r>> : r \in Rec } \cup (IF MaxRecs >= 2 THEN { <<r, s>> : r \in {x \in Rec : x.headers = <<>> /\ x.key = NullV}, s \in {x \in Rec : x.value # NullV /\ x.headers = <<>>} } ELSE {})
+RecSeqs == { <<r>> : r \in Rec }
+           \cup (IF MaxRecs >= 2 THEN { <<r, s>> : r \in {x \in Rec : x.headers = <<>>},
+                                                   s \in {x \in Rec : x.value # NullV /\ x.headers # <<>>} } ELSE {})
 Cases == SetToSeq({ [p |-> p, recs |-> rs] : p \in Params, rs \in RecSeqs })
 
 \* stage "blk": case index chosen; stage "case": checked (spreads work over workers)
